@@ -93,3 +93,114 @@ def load(R):
                           "same(result[k], self.args[free_rank(self, POS(PN(self), k))])))",
                           "forall(str, lambda k: implies(B1(self, k), same(result[k], V1(self, k))))",
                           "len(remaining_parameter_names) >= len(self.args)"]})
+    load_more(R)
+    load_encode(R)
+    load_init(R)
+
+
+def load_more(R):
+    """compute_hash, _compute_effective_kwargs_with_context_args, FunctionReferenceWithArguments.__init__, ArgumentHasher._encode."""
+    KW = TDict(TStr, TObj())
+    FWA = TEnt("FunctionReferenceWithArguments")
+    M = "reference:FunctionReferenceWithArguments."
+    A = "reference:ArgumentHasher."
+    for n, (a, r) in dict(bytes_concat=([TObj(), TObj()], TObj()), empty_bytes=([], TObj()), isoformat_of=([TObj()], TStr), fn_reference_of=([TObj()], TObj()),
+                          validated=([TObj(), TObj(), TObj()], TBool)).items():
+        R.uf(n, a, r)
+    ufs = {k: v[0] for k, v in R.ufs.items()}
+    R.attr("hashed", TObj(), mutable=True)
+
+    # ---- hashlib.sha256(): an accumulator; update appends, hexdigest hashes what was accumulated (assumed model of hashlib)
+    def sha256(ex, args, kwargs):
+        h = ex.fresh_obj("sha256")
+        init = ufs["empty_bytes"]() if not args else ex.box(args[0])
+        ex.st.objheap["hashed"] = z3.Store(ex.heap_arr("hashed", TObj()), h, init)
+        return VObj(h, "sha256")
+    R.constructors["hashlib.sha256"] = sha256
+
+    def sha_update(ex, recv, args, kwargs):
+        cur = ex.heap_arr("hashed", TObj())[recv.t]
+        ex.st.objheap["hashed"] = z3.Store(ex.heap_arr("hashed", TObj()), recv.t, ufs["bytes_concat"](cur, ex.box(args[0])))
+        return VNone
+    R.obj_method_hooks["update"] = sha_update
+    R.obj_method_hooks["hexdigest"] = lambda ex, recv, args, kwargs: VStr(ufs["sha256hex"](ex.heap_arr("hashed", TObj())[recv.t]))
+    R.contract(A + "_normalized_json", assumed=True, types={"obj": TObj()}, returns=TStr, ensures=["result == nj(obj)"], raises={"ValueError": []},
+               notes="assumed here: the normalised JSON text is a function of the encoded object (its independence of dict insertion order is NOT proved)")
+    # the documented composition: hex(sha256(utf8(normalised-json(encode(effective kwargs)))))
+    R.contract(A + "compute_hash", prop="C04", types={"effective_kwargs": TObj()}, returns=TStr,
+               ensures=["result == sha256hex(bytes_concat(empty_bytes(), utf8(nj(enc(effective_kwargs)))))"], raises={"ValueError": []},
+               )
+
+    R.contract(M + "_compute_effective_kwargs_with_context_args", prop="C04", types={"self": FWA}, returns=KW,
+               ensures=[
+                   # the context arguments enter the hashed mapping under their own reserved key iff there are any; everything else is the effective kwargs
+                   "forall(str, lambda k: implies(k != '_memento_context_args', (k in result) == (k in self.effective_kwargs) and same(result[k], self.effective_kwargs[k])))",
+                   "implies(self.context_args is not None and len(self.context_args) > 0, '_memento_context_args' in result and same(result['_memento_context_args'], self.context_args))",
+                   "implies(not (self.context_args is not None and len(self.context_args) > 0), ('_memento_context_args' in result) == ('_memento_context_args' in self.effective_kwargs))",
+                   # what the function body receives is never touched by this
+                   "forall(str, lambda k: (k in self.effective_kwargs) == old(k in self.effective_kwargs) and same(self.effective_kwargs[k], old(self.effective_kwargs[k])))"])
+
+
+def load_encode(R):
+    """ArgumentHasher._encode, one level (nested values related by encwire; enc(x) names the encoding of x)."""
+    A = "reference:ArgumentHasher."
+    ufs = {k: v[0] for k, v in R.ufs.items()}
+    FAMILIES = ["datetime.date", "list", "dict", "MementoFunctionType"]
+    R.spec("PRIM", ["a"], "a is None or isinstance(a, bool) or isinstance(a, str) or isinstance(a, int) or isinstance(a, float)")
+    R.spec("ENC_CLASS_FACTS", ["v"], "implies(isinstance(v, datetime.datetime), isinstance(v, datetime.date)) and "
+           + " and ".join("not (isinstance(v, %s) and isinstance(v, %s))" % (a_, b_) for i_, a_ in enumerate(FAMILIES) for b_ in FAMILIES[i_ + 1:])
+           + " and implies(PRIM(v), " + " and ".join("not isinstance(v, %s)" % a_ for a_ in FAMILIES) + ")")
+    R.spec("ENCLIST", ["rl", "al"], "(rl is None) == (al is None) and implies(rl is not None, len(rl) == len(al) and forall(int, lambda i: implies(0 <= i and i < len(rl), encwire(rl[i], al[i]))))")
+    R.spec("ENCMAP", ["rd", "ad"], "forall(str, lambda k: (k in rd) == (k in ad) and implies(k in rd, encwire(rd[k], ad[k])))")
+    R.spec("ENC1", ["r", "a"],
+           "(PRIM(a) and same(r, a)) "
+           "or (isinstance(a, datetime.datetime) and isinstance(r, dict) and len(r) == 2 and r['_mementoType'] == 'datetime' and r['iso8601'] == isoformat_of(a)) "
+           "or (isinstance(a, datetime.date) and not isinstance(a, datetime.datetime) and isinstance(r, dict) and len(r) == 2 and r['_mementoType'] == 'date' and r['iso8601'] == isoformat_of(a)) "
+           "or (isinstance(a, list) and isinstance(r, list) and ENCLIST(r, a)) "
+           "or (isinstance(a, dict) and isinstance(r, dict) and ENCMAP(r, a)) "
+           "or (isinstance(a, MementoFunctionType) and isinstance(r, dict) and len(r) == 5 and r['_mementoType'] == 'FunctionReference' "
+           "and r['qualifiedName'] == fn_reference_of(a).qualified_name and r['parameterNames'] == fn_reference_of(a).parameter_names "
+           "and encwire(r['partialKwargs'], fn_reference_of(a).partial_kwargs) "
+           "and encwire(r['partialArgs'], aslist(fn_reference_of(a).partial_args) if truthy(fn_reference_of(a).partial_args) else None))")
+    R.spec("LISTCOPY", ["l", "t"], "l is not None and len(l) == len(t) and forall(int, lambda i: implies(0 <= i and i < len(t), same(l[i], t[i])))")
+    R.obj_method_hooks["isoformat"] = lambda ex, recv, args, kwargs: VStr(ufs["isoformat_of"](recv.t))
+
+    def fn_reference_hook(ex, recv, args, kwargs):
+        r = ufs["fn_reference_of"](recv.t)
+        ex.assume(r != PyNone)
+        return VObj(r, "FunctionReference")
+    R.obj_method_hooks["fn_reference"] = fn_reference_hook
+    R.contract(A + "_encode", prop="C04", types={"arg": TObj()}, returns=TObj(),
+               ensures=["ENC1(result, arg)", "[effect] encwire(result, arg)", "[effect] same(result, enc(arg))"], raises={"ValueError": []},
+               labels={"dict_literals_dynamic": True, "entry_axioms": ["ENC_CLASS_FACTS(arg)"], "touch_result": True})
+
+
+def load_init(R):
+    """FunctionReferenceWithArguments.__init__: what is normalised, what is bound, what is hashed, what the body will receive."""
+    KW = TDict(TStr, TObj())
+    FWA = TEnt("FunctionReferenceWithArguments")
+    M = "reference:FunctionReferenceWithArguments."
+    A = "reference:ArgumentHasher."
+    R.uf("hash_of", [TObj()], TStr)
+    R.contract(A + "normalize", assumed=True, types={"obj": TObj()}, returns=TObj("nn:object"), ensures=["same(result, normalized(obj))"], raises={"ValueError": []},
+               notes="normalize = _decode(_encode(x)); _encode is proved one level (above), _decode and the idempotence of normalize are not under contract")
+    R.contract("reference:validate_args", assumed=True, types={"args": TObj(), "_memento_context_args": TObj(), "kwargs": TObj()}, raises={"AssertionError": []}, ensures=[])
+    R.exc_bases["FunctionNotFoundError"] = ["ValueError"]
+    R.spec("NORM_ARGS", ["a"], "astuple(normalized(aslist(a))) if truthy(a) else None")
+    R.contract(M + "__init__", prop="C04",
+               types={"self": FWA, "fn_reference": TObj("nn:FunctionReference"), "args": TObj(), "kwargs": TObj(), "context_args": TObj()},
+               requires=["NAMES_OK(fn_reference.parameter_names)"],
+               ensures=["same(self.fn_reference, fn_reference)",
+                        # arguments are normalised first; binding and hashing see only the normalised values
+                        "implies(truthy(args), same(self.args, astuple(normalized(aslist(args))))) and implies(not truthy(args), len(self.args) == 0)",
+                        "implies(truthy(kwargs), same(self.kwargs, normalized(kwargs))) and implies(not truthy(kwargs), len(self.kwargs) == 0)",
+                        "implies(truthy(context_args), same(self.context_args, normalized(context_args))) and implies(not truthy(context_args), len(self.context_args) == 0)",
+                        # the hash is computed from the effective kwargs plus the context arguments (reserved key), nothing else
+                        "self.arg_hash == sha256hex(bytes_concat(empty_bytes(), utf8(nj(enc(self.effective_kwargs_with_context_args)))))",
+                        "forall(str, lambda k: implies(k != '_memento_context_args', (k in self.effective_kwargs_with_context_args) == (k in self.effective_kwargs) "
+                        "and same(self.effective_kwargs_with_context_args[k], self.effective_kwargs[k])))",
+                        "implies(len(self.context_args) > 0, '_memento_context_args' in self.effective_kwargs_with_context_args and same(self.effective_kwargs_with_context_args['_memento_context_args'], self.context_args))",
+                        # the effective kwargs are the binding of the normalised call (BIND, proved for _compute_effective_kwargs)
+                        "forall(str, lambda k: implies(k in self.kwargs, k in self.effective_kwargs and same(self.effective_kwargs[k], self.kwargs[k])))"],
+               raises={"FunctionNotFoundError": [], "ValueError": [], "AssertionError": []},
+               modifies=["self.*"])
